@@ -70,7 +70,7 @@ func checkWorkersStateless(c *core.Ctx, rule string, tabs *Tables) int {
 					return nil, fmt.Errorf("unexpected parameter %s", sig.Params().At(k).Name())
 				}
 			}
-			if _, err := ev.CallFunc(fn, args...); err != nil {
+			if _, err := ev.CallFuncBound(fn, args...); err != nil {
 				return nil, err
 			}
 			if out == nil || (errs != nil && len(errs.Sent) > 0) || len(out.Sent) != len(idx) {
